@@ -153,6 +153,13 @@ def classify(sa, sb):
     return 'hash-equal-source-different:' + '+'.join(d)
 
 
+_TMP = __import__('re').compile(r'_tmp\d+')
+
+
+def norm_src(src):
+    return sorted(_TMP.sub('_tmp', l) for l in src.split('\n'))
+
+
 def _eval_many(specs):
     return [eval_spec(s) for s in specs]
 
@@ -195,6 +202,11 @@ def search_pairs(ctx, n=None, report_key=None):
         ctx.count('pairs'); ctx.count('pair-token=' + tok)
         heq = (a['hash'] == b['hash']) and (sa['od'] == sb['od'])
         seq = a['src'] == b['src']
+        if heq and not seq and (a['ser'] == b['ser'] or norm_src(a['src']) == norm_src(b['src'])):
+            # the same form built twice (the differing token is unused), or texts that differ only in the numbering /
+            # order of CSE temporaries (extract_common_expressions iterates a set of objects hashed by address)
+            ctx.count('pairs-same-form-text-differs-only-in-temporaries')
+            seq = True
         ctx.case((ka, kb), nontrivial=True)
         if seq:
             ctx.count('pairs-with-identical-source')
@@ -208,7 +220,9 @@ def search_pairs(ctx, n=None, report_key=None):
                           {'spec_a': {k: repr(v) for k, v in sa.items()}, 'spec_b': {k: repr(v) for k, v in sb.items()},
                            'replay': 'harness.c13.mk(spec) ; vf.hash() ; compile.generate(vf, on_demand=spec["od"])',
                            'hash': a['hash'], 'first_differing_lines': diff}, True)
-        if len(a['ser']) + len(b['ser']) < 60000:
+        if classify(sa, sb) == 'hash:const-signed-zero':
+            ctx.count('pairs-signed-zero(not sent to the model: it identifies 0.0 and -0.0)')
+        elif len(a['ser']) + len(b['ser']) < 60000:
             req.append((a['ser'], sa['od'], b['ser'], sb['od']))
             exp.append('1' if heq else '0')
             meta.append(('keyeq', sa, sb, tok, seq))
